@@ -705,6 +705,9 @@ func replay(ctx *core.Ctx, raw json.RawMessage) error {
 	if rc.Kind == "repeat" {
 		return repeatOne(ctx, rc.Name, rc.Data, 600)
 	}
+	if rc.Kind == "repeat-many" {
+		return repeatMany(ctx, rc.Data, 4000)
+	}
 	pool, err := newPool()
 	if err != nil {
 		return err
